@@ -115,6 +115,21 @@ impl Core {
         self.pos += n as u64;
         Ok(n)
     }
+    /// a gathering write: as many bytes as the schedule allows, taken across the slices in order (a sink that
+    /// implements vectored writes may end a short write inside any slice)
+    fn do_write_vectored(&mut self, bufs: &[io::IoSlice<'_>]) -> io::Result<usize> {
+        let total: usize = bufs.iter().map(|b| b.len()).sum();
+        let mut joined: Vec<u8> = Vec::with_capacity(total.min(1 << 20));
+        let cap = if self.sched.chunks.is_empty() { total } else { self.sched.chunks[self.calls % self.sched.chunks.len()].max(1).min(total) };
+        for b in bufs {
+            if joined.len() >= cap {
+                break;
+            }
+            let take = (cap - joined.len()).min(b.len());
+            joined.extend_from_slice(&b[..take]);
+        }
+        self.do_write(&joined)
+    }
     fn do_seek(&mut self, to: SeekFrom) -> io::Result<u64> {
         self.fault()?;
         let (base, off) = match to {
@@ -233,6 +248,9 @@ impl Write for SyncStream {
     fn write(&mut self, buf: &[u8]) -> io::Result<usize> {
         self.0.do_write(buf)
     }
+    fn write_vectored(&mut self, bufs: &[io::IoSlice<'_>]) -> io::Result<usize> {
+        self.0.do_write_vectored(bufs)
+    }
     fn flush(&mut self) -> io::Result<()> {
         self.0.do_flush()
     }
@@ -277,6 +295,12 @@ impl futures::io::AsyncWrite for AsyncStream {
             return Poll::Pending;
         }
         Poll::Ready(self.0.do_write(buf))
+    }
+    fn poll_write_vectored(mut self: Pin<&mut Self>, cx: &mut Context<'_>, bufs: &[io::IoSlice<'_>]) -> Poll<io::Result<usize>> {
+        if self.0.pend(cx) {
+            return Poll::Pending;
+        }
+        Poll::Ready(self.0.do_write_vectored(bufs))
     }
     fn poll_flush(mut self: Pin<&mut Self>, cx: &mut Context<'_>) -> Poll<io::Result<()>> {
         if self.0.pend(cx) {
